@@ -150,6 +150,30 @@ fn rv_interp_formula_d2() {
     assert!(o.values[0].to_bits() == (a.values[0] + (b.values[0] - a.values[0]) * t).to_bits());
     assert!(o.values[1].to_bits() == (a.values[1] + (b.values[1] - a.values[1]) * t).to_bits());
 }
+// (complete) the scalar law at t = 0: a + (b - a) * 0.0 == a for all finite a, b (also when b - a overflows to +-inf? no: inf * 0 is NaN, hence the bound)
+#[kani::proof]
+fn scalar_lerp_t0() {
+    let a: f64 = kani::any(); let b: f64 = kani::any();
+    kani::assume(fin(a) && fin(b));
+    assert!(a + (b - a) * 0.0 == a);
+}
+// (BOUNDED: dimension 1) distance on R^1: non-negative, never NaN, zero on equal states (sqrt / powi contract stubs)
+#[kani::proof]
+#[kani::unwind(6)]
+#[kani::stub(f64::sqrt, sqrt_model)]
+#[kani::stub(f64::powi, powi_model)]
+fn rv_distance_d1() {
+    let lo: f64 = kani::any(); let hi: f64 = kani::any();
+    kani::assume(lo < hi);
+    let sp = RealVectorStateSpace { dimension: 1, bounds: vec![(lo, hi)], longest_valid_segment_fraction: 0.05 };
+    let a = RealVectorState { values: vec![kani::any()] };
+    let b = RealVectorState { values: vec![kani::any()] };
+    kani::assume(fin(a.values[0]) && fin(b.values[0]));
+    kani::cover!(true);
+    let d = sp.distance(&a, &b);
+    assert!(d >= 0.0);
+    assert!(sp.distance(&a, &a) == 0.0);
+}
 // (complete, scalar law used per coordinate) a + (b - a) * t is a at t = 0 and lies between a and the t = 1 value
 // e = a + (b - a) for every t in [0,1] (monotone rounding): a convex box contains the segment up to the rounding of e
 #[kani::proof]
